@@ -485,6 +485,8 @@ def rand_case(rng, allow_t0=False):
         if allow_t0 and rng.random() < 0.15:
             tmo = 0
         ops.append(dict(mode=rng.choice('aaas'), k=k, pats=pats, T=tmo, gap=rng.choice([0, 0, 0, 0.2, 0.5, 1.0])))
+        if ops[-1]['mode'] == 's' and rng.random() < 0.3:
+            ops[-1]['T'] = None          # a blocking call without a time limit (also on a descriptor an awaited call has left non-blocking)
         if windows and rng.random() < 0.6:
             ops[-1]['W'] = rng.choice([0, 1, 2, 3, 5])
     # arrivals on a 0.1 grid (timeouts are off-grid): text with planted occurrences
@@ -627,8 +629,16 @@ def run(ctx):
     first = None
     lines = []
     for c in cases:
-        a = run_object(c, all_sync=False)
-        b = run_object(c, all_sync=True)
+        try:
+            with common.guard(60):
+                a = run_object(c, all_sync=False)
+            with common.guard(60):
+                b = run_object(c, all_sync=True)
+        except common.Stuck:
+            # a call that sits in a system call for good although its stream has been scripted to the end: with the virtual clock every wait
+            # of the code under test goes through the interposed select / poll, so this is a read that nothing announced
+            common.report(ctx, 'async/call-never-returned', 'a call of this history never returned (blocked in a read outside select / poll): %s' % json.dumps(c)[:300], dict(case=c))
+            break
         runs.append((a, b))
         d = compare_twin(c, a, b)
         for r in a['recs']:
@@ -682,6 +692,8 @@ def run(ctx):
                 continue          # an end of stream on a transport left reading: the known finding (b), outside the model
             if c.get('encoding'):
                 continue          # unicode mode: judged against the blocking twin (the codec is outside this model; C07)
+            if any(r['out'] == 'BLOCKED' for r in a['recs']):
+                continue          # a call without a time limit on a stream that has nothing more to say waits for ever: not a history of the model
             if any(r['out'].startswith('EXC') for r in a['recs']):
                 continue          # a read error of the transport is not an event of the model: judged against the blocking twin
             if any(ev[0] == 'd' and ev[2] for r_ in a['recs'] for ev in a['log'][r_['n0']:r_['n1']]):
